@@ -9,6 +9,9 @@ def text_edit(old, new):
         return src.replace(old, new, 1) if old in src else None
     return edit
 MUTANTS = [
+    Mutant('zo_abs_lagtime_unbound', O, text_edit("            to_comp = cb.set_lag_time(to_comp, depot.lag_time)\n            cb.set_bioavailability(to_comp, depot.bioavailability)", "            cb.set_lag_time(to_comp, depot.lag_time)\n            cb.set_bioavailability(to_comp, depot.bioavailability)"), 'T4', 'returned compartment dropped'),
+    Mutant('find_depot_break', 'src/pharmpy/model/statements.py', text_edit("                if metabolite is None or not self.get_flow(to_central, metabolite):\n                    continue", "                if metabolite is None or not self.get_flow(to_central, metabolite):\n                    break"), 'T5', 'search stops at a rejected candidate'),
+    Mutant('peripheral_lambda_late', 'src/pharmpy/tools/mfl/feature/peripherals.py', text_edit("partial(set_peripheral_compartments, n=count)", "lambda model: set_peripheral_compartments(model, n=count)"), 'T6', 'late-binding lambda'),
     Mutant('elim_setters_swapped', E, text_edit("yield ('ELIMINATION', mode.name), set_zero_order_elimination", "yield ('ELIMINATION', mode.name), set_michaelis_menten_elimination"), 'T1', 'ZO dispatches to the MM setter'),
     Mutant('abs_setters_swapped', A, text_edit("yield ('ABSORPTION', mode.name), set_first_order_absorption", "yield ('ABSORPTION', mode.name), set_instantaneous_absorption"), 'T1', 'FO dispatches to INST'),
     Mutant('detector_strings_swapped', P, text_edit('elif has_zero_order_elimination(model):\n        elimination = "ZO"', 'elif has_zero_order_elimination(model):\n        elimination = "MM"'), 'T1', 'zero order reported as MM'),
